@@ -18,7 +18,7 @@ RULE = ("case = AgentDef arguments + probes (+ create_agents index spec); non-tr
         "costs both non-empty, or a mass creation of >=2 agents with non-default arguments; distinct by sha1(case)")
 ASSUMPTIONS = []
 BUDGET = {"quick": {"workers": 8, "examples": 2000, "seconds": 30},
-          "thorough": {"workers": 16, "examples": 8000, "seconds": 300}}
+          "thorough": {"workers": 16, "examples": 48000, "seconds": 450}}
 
 AGENTS = ["a1", "a2", "a10", "b", "a_1"]
 COMPS = ["c1", "c2", "v1", "v10", "f_1"]
